@@ -11,43 +11,63 @@ EXTENDS Termination, TLC, Json, IOUtils
 
 TraceLog == ndJsonDeserialize(IOEnv.TRACE)
 
-VARIABLES l, bad, rvoted, rvoteGvt, div
-tvars == <<vars, l, bad, rvoted, rvoteGvt, div>>
+VARIABLES l, bad, rvoted, rvoteGvt, div,
+          maxd,    \* largest timestamp at which any LP ever declared (an upper bound of what the thread's max_t can hold)
+          tie,     \* LP -> its last rollback was caused by a message with the timestamp of its last kept event: the code cannot tell whether the
+                   \* declaring event was kept (it compares times) and waits for the next event of the LP; no obligation is derived then
+          mustv    \* number of consecutive GVT values (nothing processed or rolled back in between) at which the thread was obliged to vote
+                   \* - every LP is terminated for the accounting of Termination.tla (or its predicate held at initialisation) below the GVT,
+                   \* and the GVT is above every timestamp at which an LP ever declared - and has not
+tvars == <<vars, l, bad, rvoted, rvoteGvt, div, maxd, tie, mustv>>
 Line == TraceLog[l]
 IsEvent(e) == l <= Len(TraceLog) /\ bad = <<>> /\ Line.e = e /\ l' = l + 1
 
-TInit == Init /\ l = 1 /\ bad = <<>> /\ rvoted = FALSE /\ rvoteGvt = 0 /\ div = 0 /\ TLCSet(1, 0) /\ TLCSet(2, <<>>) /\ TLCSet(3, 0)
+TInit == Init /\ l = 1 /\ bad = <<>> /\ rvoted = FALSE /\ rvoteGvt = 0 /\ div = 0 /\ maxd = 0 /\ tie = [p \in LPs |-> FALSE] /\ mustv = 0 /\ TLCSet(1, 0) /\ TLCSet(2, <<>>) /\ TLCSet(3, 0)
 
+\* (a check that does not own C08 switches this obligation off, so that its own failures further down the trace are still reached)
+OwnC08 == IF "OWNC08" \in DOMAIN IOEnv THEN IOEnv.OWNC08 = "1" ELSE TRUE
+Missing == IF mustv >= 2 /\ OwnC08 THEN <<[p |-> "C08", w |-> "every LP is terminated below the GVT and the GVT is above every declaration, for two GVT values in a row, but the thread does not vote (the run would never end)", at |-> l - 1]>>
+           ELSE <<>>
 TReset ==
   /\ IsEvent("Reset")
   /\ ev' = [p \in LPs |-> <<>>] /\ inited' = 0 /\ initPred' = [p \in LPs |-> FALSE] /\ gvt' = 0
   /\ termT' = [p \in LPs |-> None] /\ lpsToEnd' = 0 /\ maxT' = 0 /\ voted' = FALSE /\ voteGvt' = 0
-  /\ rvoted' = FALSE /\ rvoteGvt' = 0
-  /\ UNCHANGED <<bad, div>>
+  /\ rvoted' = FALSE /\ rvoteGvt' = 0 /\ maxd' = 0 /\ tie' = [p \in LPs |-> FALSE] /\ mustv' = 0
+  /\ bad' = Missing /\ UNCHANGED div
 
-TLpInit == IsEvent("Init") /\ LpInit(Line.lp, Line.pred = 1) /\ UNCHANGED <<bad, rvoted, rvoteGvt, div>>
-TProc == IsEvent("Proc") /\ Process(Line.lp, Line.t, Line.pred = 1) /\ UNCHANGED <<bad, rvoted, rvoteGvt, div>>
-TRb == IsEvent("Rb") /\ Rollback(Line.lp, Line.k, Line.t) /\ UNCHANGED <<bad, rvoted, rvoteGvt, div>>
-TG == IsEvent("G") /\ Gvt(Line.g) /\ UNCHANGED <<bad, rvoted, rvoteGvt, div>>
+TLpInit == IsEvent("Init") /\ LpInit(Line.lp, Line.pred = 1) /\ UNCHANGED <<bad, rvoted, rvoteGvt, div, maxd, tie, mustv>>
+TProc == IsEvent("Proc") /\ Process(Line.lp, Line.t, Line.pred = 1) /\ bad' = Missing /\ mustv' = 0
+         /\ maxd' = (IF Line.pred = 1 /\ Line.t > maxd THEN Line.t ELSE maxd) /\ tie' = [tie EXCEPT ![Line.lp] = FALSE] /\ UNCHANGED <<rvoted, rvoteGvt, div>>
+TRb == IsEvent("Rb") /\ Rollback(Line.lp, Line.k, Line.t) /\ bad' = Missing /\ mustv' = 0
+       /\ tie' = [tie EXCEPT ![Line.lp] = ~initPred[Line.lp] /\ Line.k >= 1 /\ ev[Line.lp][Line.k].t = Line.t]
+       /\ UNCHANGED <<rvoted, rvoteGvt, div, maxd>>
+\* C08 (every run returns): once every LP's predicate holds on a committed state and the GVT is above every timestamp at which an LP
+\* ever declared, nothing can make the thread wait any longer: it has to vote at this GVT
+TG == IsEvent("G") /\ Gvt(Line.g) /\ bad' = Missing
+      /\ mustv' = (IF ~rvoted /\ Line.g < TermTime /\ Line.g > maxd /\ (\A p \in LPs : initPred[p] \/ (termT'[p] # None /\ termT'[p] < Line.g))
+                   THEN mustv + 1 ELSE 0)
+      /\ UNCHANGED <<rvoted, rvoteGvt, div, maxd, tie>>
 
 RealHeld(g) == g >= TermTime \/ \A p \in LPs : HeldCommitted(p, g)
 TVote ==
   /\ IsEvent("Vote")
   /\ rvoted' = TRUE /\ rvoteGvt' = Line.gvt
   /\ bad' = IF RealHeld(Line.gvt) THEN <<>>
-            ELSE <<[p |-> "C07", w |-> "thread voted to terminate although an LP's predicate has not held on a committed state", at |-> l]>>
+            ELSE <<[p |-> "C07", w |-> "thread voted to terminate although an LP's predicate has not held on a committed state", at |-> l],
+                   [p |-> "C01", w |-> "thread voted to terminate although an LP's predicate has not held on a committed state (the run can end before the sequential result is reached)", at |-> l]>>
   /\ div' = div + (IF voted /\ Line.lte = lpsToEnd THEN 0 ELSE 1)
+  /\ mustv' = 0 /\ UNCHANGED <<maxd, tie>>
   /\ UNCHANGED vars
 \* the accounting values reported by the hooks
 TTermLp ==
   /\ IsEvent("TermLp")
   /\ div' = div + (IF (Line.term = 1) = (termT[Line.lp] # None) THEN 0 ELSE 1)
-  /\ UNCHANGED <<vars, bad, rvoted, rvoteGvt>>
+  /\ UNCHANGED <<vars, bad, rvoted, rvoteGvt, maxd, tie, mustv>>
 TTermUndo ==
   /\ IsEvent("TermUndo")
   /\ div' = div + (IF (Line.keep = 0) => (termT[Line.lp] = None) THEN 0 ELSE 1)
-  /\ UNCHANGED <<vars, bad, rvoted, rvoteGvt>>
-TSkip == (IsEvent("TermCtrl") \/ IsEvent("End")) /\ UNCHANGED <<vars, bad, rvoted, rvoteGvt, div>>
+  /\ UNCHANGED <<vars, bad, rvoted, rvoteGvt, maxd, tie, mustv>>
+TSkip == (IsEvent("TermCtrl") \/ IsEvent("End")) /\ UNCHANGED <<vars, bad, rvoted, rvoteGvt, div, maxd, tie, mustv>>
 
 TNext == TReset \/ TLpInit \/ TProc \/ TRb \/ TG \/ TVote \/ TTermLp \/ TTermUndo \/ TSkip
 TSpec == TInit /\ [][TNext]_tvars
